@@ -1,6 +1,7 @@
 package main
 
 import (
+	"os"
 	"fmt"
 	"go/ast"
 	"go/token"
@@ -275,9 +276,19 @@ func (u *Unit) execStmt(st *State, s ast.Stmt) flow {
 					base := st.fork()
 					work := st.fork()
 					if rets, ok := u.inlinePaths(work, call); ok {
-						fn := u.calleeFunc(call)
-						sig := fn.Type().(*types.Signature)
-						if v, merged := u.mergeRets(st, base, rets, sig, fn.Name()); merged {
+						var sig *types.Signature
+						name := "closure"
+						if fn := u.calleeFunc(call); fn != nil {
+							sig = fn.Type().(*types.Signature)
+							name = fn.Name()
+						} else {
+							sig, _ = u.typeOf(call.Fun).Underlying().(*types.Signature)
+						}
+						if sig == nil {
+							u.execAssign(st, x)
+							return u.alive(st)
+						}
+						if v, merged := u.mergeRets(st, base, rets, sig, name); merged {
 							vals := []Val{v}
 							if v.Kind == KTuple {
 								vals = v.Elems
@@ -544,7 +555,26 @@ func (u *Unit) inlinePaths(st *State, call *ast.CallExpr) ([]retState, bool) {
 		return nil, false
 	}
 	fn := u.calleeFunc(call)
-	if fn == nil || fn.Name() == "verifPoint" {
+	if fn == nil {
+		// a local function value holding a function literal: f := func() {...}; f()
+		if id, ok := ast.Unparen(call.Fun).(*ast.Ident); ok {
+			if o, isVar := u.info().ObjectOf(id).(*types.Var); isVar {
+				if fv, has := st.vars[o]; has && fv.Closure != nil {
+					sig, _ := u.typeOf(fv.Closure.lit).(*types.Signature)
+					if sig == nil || sig.Variadic() || len(call.Args) != sig.Params().Len() {
+						return nil, false
+					}
+					var args []Val
+					for i, a := range call.Args {
+						args = append(args, u.coerce(st, u.eval(st, a), sig.Params().At(i).Type()))
+					}
+					return u.inlineBodyStates(st, fv.Closure.lit.Type, fv.Closure.lit.Body, nil, nil, args, sig), true
+				}
+			}
+		}
+		return nil, false
+	}
+	if fn.Name() == "verifPoint" {
 		return nil, false
 	}
 	key := funcKey(fn)
@@ -1224,14 +1254,23 @@ func (u *Unit) havocForLoop(st *State, run func(*State) []*State, ord int) (*Sta
 	// second dry run on the havoc'd state: which references are written?
 	if len(pre) > 0 {
 		r := u.root()
+		// (an enclosing loop may be in its own logging dry run: keep its log, and pass this loop's writes up to it)
+		outerLog, outerLogging := r.writeLog, r.logging
 		r.writeLog = map[string][]Term{}
 		r.logging = true
 		u.dryRun(h, run)
-		r.logging = false
 		log := r.writeLog
-		r.writeLog = nil
+		r.writeLog, r.logging = outerLog, outerLogging
+		if outerLogging {
+			for k, v := range log {
+				outerLog[k] = append(outerLog[k], v...)
+			}
+		}
 		for name, preT := range pre {
 			ws := log[name]
+			if os.Getenv("GOCV_DEBUG_LOOP") != "" {
+				fmt.Fprintf(os.Stderr, "loop %d heap %s: writes %v mark %d\n", ord, name, ws, mark)
+			}
 			invariant := len(ws) > 0
 			seen := map[Term]bool{}
 			var uniq []Term
